@@ -173,6 +173,12 @@ def withctx(x, a="d", context=None):
     return "%s|%s|%r" % (_r(x), a if isinstance(a, str) else _r(a), context is not None)
 
 
+def ctxvar(x, name="v1", context=None):
+    """reads a state variable through the context (the variables set to its left, wherever the input came from)"""
+    _log("ctxvar")
+    return "%s|%s" % (_r(x), _r(context.vars.get(name)))
+
+
 def sub(x, q, context=None):
     _log("sub")
     v = context.evaluate(q).get()
@@ -267,6 +273,12 @@ def attr_up(x):
 
 def attr_low(x):
     _log("attr_low")
+    return x
+
+
+def attr_false(x):
+    """attributes that are present but false: a condition on an attribute looks at its value, not at its presence"""
+    _log("attr_false")
     return x
 
 
@@ -378,11 +390,12 @@ def after3(x):
 
 
 FIRST = [one, lit, num, flt, mk, firstcat]
-DATA = [add, mulf, flagged, pair, none_default, optint, optfb, unann, cat, ident, withctx, sub, subin, nocache, recache, ctxmut, boom, needs,
+DATA = [add, mulf, flagged, pair, none_default, optint, optfb, unann, cat, ident, withctx, ctxvar, sub, subin, nocache, recache, ctxmut, boom, needs,
         push, setkey, dfcol, deepmut, argmut, after1, after2, after3]
 STATE = [getvar, tag, mutvar]
 ATTRS = {"attr_up": dict(ABC="abc"), "attr_low": dict(abc="x"), "vol": dict(volatile=True),
-         "attr_camel": dict(contextMenu="m", sourceURL="u", Xy="kept"), "nonvol": dict(volatile=False)}
+         "attr_camel": dict(contextMenu="m", sourceURL="u", Xy="kept"), "nonvol": dict(volatile=False),
+         "attr_false": dict(ABC=False, abc=False)}
 
 
 _basic = []
@@ -429,7 +442,7 @@ def table():
         t["root"][f.__name__] = (f, "first", {})
     for f in DATA:
         t["root"][f.__name__] = (f, "data", {})
-    for f in (attr_up, attr_low, attr_camel, vol, nonvol):
+    for f in (attr_up, attr_low, attr_camel, attr_false, vol, nonvol):
         t["root"][f.__name__] = (f, "data", dict(ATTRS[f.__name__]))
     for f in STATE:
         t["root"][f.__name__] = (f, "state", {})
